@@ -473,6 +473,11 @@ func (sab *storageAllocationBase) payCostForDtuForEnterpriseAllocation(t *transa
 		}
 
 		sp := sps[i]
+		if !sp.acceptsRewards() {
+			// DistributeRewards credits nothing to a killed or under-staked pool,
+			// so nothing is taken from the write pool for this blobber
+			continue
+		}
 		err = sp.DistributeRewards(c, ba.BlobberID, spenum.Blobber, spenum.EnterpriseBlobberReward, balances, sab.ID)
 		if err != nil {
 			return 0, err
